@@ -272,6 +272,9 @@ impl LogStore for FileLogStore {
                 max_index = max_index.max(entry.index);
             }
             inner.file.flush()?;
+            // the last index is the highest index held, not the highest of this batch: a batch
+            // may re-write entries below the current end
+            max_index = inner.entries.keys().next_back().copied().unwrap_or(max_index);
         }
 
         self.last_index.store(max_index, Ordering::SeqCst);
